@@ -51,3 +51,23 @@ func TestVerif_Convergence(t *testing.T) {
 	run(t, r, vkit.N(6000, 120000), map[string]bool{"conv": true}, false)
 	r.Finish()
 }
+
+// Slow writers: user transactions that keep the table locked across virtual time while the reconciler and its refresher wait
+// (see C15 lock-held-window; one run at a time because the hook gate is process-wide). Whatever they decided before they got the
+// lock must not keep the table from converging - nor keep the lock.
+func TestVerif_LockHeldWindow(t *testing.T) {
+	r := vkit.Start(t, "C14", "lock-held-window", "exploration", rule+" (variant: refreshing always on, a third of the user transactions of the main goroutine hold the table lock for 1-400 ms of virtual time)")
+	r.Require("operation_attempts", "user_transactions_holding_the_lock", "convergence_checks")
+	n := vkit.N(400, 15000)
+	for i := 0; i < n; i++ {
+		if part, idx, ok := vkit.ReplayCase(); ok && !(part == r.Part && idx == i) {
+			continue
+		}
+		cfg := recsim.RandomConfig(r.Rand(i, 99), false)
+		cfg.Refresh, cfg.HoldLock = true, true
+		cfg.Report = map[string]bool{"conv": true}
+		r.LogCase(i)
+		recsim.Run(t, r, i, cfg)
+	}
+	r.Finish()
+}
